@@ -174,6 +174,8 @@ pub struct ChainProg {
     pub nestings: Vec<(String, String, usize)>,
     /// (kind, closure text) of a handler whose body is a nested macro invocation (C17)
     pub handler: Option<(String, String)>,
+    /// option prefix written in front of the branches (macro side only)
+    pub options: String,
 }
 
 pub struct CG<'a> {
